@@ -1225,6 +1225,37 @@ let vp_cmd (args : string list) : string =
     let (r, c) = vlogi_vs_get !vp_cfg !vp_state (vv_ptr rest) in
     vp_state := { !vp_state with vs_cache = c };
     (match r with Some v -> "val:" ^ vv_show_val v | None -> "err")
+  (* VLog::get under an explicit block-cache rule (1 = a hit is served only when checksum and length equal the pointer's,
+     0 = any hit is served: the code before the repair of F41); the state is not changed *)
+  | "getrule" :: rule :: rest ->
+    let (r, _) = vlogi_vs_get_rule !vp_cfg (rule = "1") !vp_state (vv_ptr rest) in
+    (match r with Some v -> "val:" ^ vv_show_val v | None -> "err")
+  | ["cacherule"] -> if vLOG_CACHE_HIT_CHECKED then "checked" else "unchecked"
+  (* damage: the log is closed, file `id` keeps its first `off` bytes, the directory is opened again.  What the open does
+     with the cut file is Lsm/VlogOpen.v (a file shorter than its header is emptied / refused), the writer completes the
+     file of the highest id; then the machine's reopen (writer ids from the directory, empty cache) *)
+  | ["cut"; id; off] ->
+    let idn = big_of_string id and off = int_of_string off in
+    let st = !vp_state in
+    (match find_file idn st.vs_files with
+     | None -> "none"
+     | Some f when off > List.length f.vf_bytes -> "bad-cut"
+     | Some _ ->
+       let fs = cut_file idn (nat_of_int off) st.vs_files in
+       let highest = List.fold_left (fun m g -> max m (int_of_n g.vf_id)) 0 fs in
+       let opened = List.map (fun g -> (g, vopen_file vLOG_OPEN_EMPTIES_TORN_HEADER g.vf_id g.vf_bytes)) fs in
+       if List.exists (fun (_, o) -> o = None) opened then "refuse" else begin
+         let fs' = List.map (fun (g, o) ->
+             let b = (match o with Some b -> b | None -> []) in
+             let b = if int_of_n g.vf_id = highest then vwriter_open g.vf_id N0 !vp_cfg.cf_max b else b in
+             { g with vf_bytes = b }) opened in
+         (match vlogi_ds_step !vp_cfg st (DFiles (fs', st.vs_active, st.vs_next)) with
+          | None -> "err"
+          | Some st1 ->
+            (match vlogi_ds_step !vp_cfg st1 (DOp (VReopen false)) with
+             | Some st2 -> vp_state := st2; vp_show_state ()
+             | None -> "err"))
+       end)
   | ["state"] -> vp_show_state ()
   (* the directory holds the one file `id` with the given bytes: what the open does with it, then the writer *)
   | ["hopen"; id; h] ->
